@@ -309,6 +309,17 @@ def check_c17(seed, tier):
                 level = rng.choice(["1.1", "1.5"])
                 cfg = {"seed": rng.randrange(10**9), "level": level, "images": [("HH", None)], "n_lines": 2, "n_pixels": 1, "n_att": 2, "n_chan": 1,
                        "same_instant": (y, doy, ms), "mapproj": None}
+                extra_us = 0
+                if rng.random() < 0.4:
+                    # the scene-centre field is wide enough for microseconds ("ms, us, or decimal seconds"): 4..6 fraction digits
+                    y_, m_, d_ = synth.civil_from_doy(y, doy)
+                    hh, rem = divmod(ms, 3600000)
+                    mi, rem = divmod(rem, 60000)
+                    ss, msec = divmod(rem, 1000)
+                    nd = rng.choice([1, 2, 3])
+                    extra = rng.randrange(1, 10 ** nd)
+                    extra_us = extra * 10 ** (3 - nd)
+                    cfg["leader_overrides"] = {"dataset_summary.scene_center_time": f"{y_:04d}{m_:02d}{d_:02d}{hh:02d}{mi:02d}{ss:02d}{msec:03d}{extra:0{nd}d}"}
                 prod = products.build(cfg)
                 path, clean = products.place(prod, "memory")
                 evals += 1
@@ -328,6 +339,8 @@ def check_c17(seed, tier):
                         got["line_us"] = t["imagery/HH/sensor_acquisition_date_microseconds"].values[0]
                     for k, v in got.items():
                         w = want if k != "creation" else np.datetime64(int(want.astype("int64")) // 10**7 * 10**7, "ns")
+                        if k == "scene_center":
+                            w = want + np.timedelta64(extra_us, "us")
                         if np.datetime64(v, "ns") != w:
                             viol.append({"case": case, "what": f"{k} time reads {np.datetime64(v, 'ns')} but the instant written is {w}",
                                          "key": "attitude-time" if k == "attitude" and np.datetime64(v, "ns") == w + np.timedelta64(1, "D") else None})
@@ -337,6 +350,33 @@ def check_c17(seed, tier):
                     viol.append({"case": case, "what": f"{type(e).__name__}: {e}"[:300], "key": common.failure_site(e)})
                 finally:
                     clean()
+    # an acquisition straddling New Year: orbit data and attitude points on 31 December of year Y, scene centre and image lines
+    # on 1 January of Y+1 — the attitude year is that of the platform-position first point (the code's documented reference)
+    for y in (years[:2] if tier == "quick" else years[::4]):
+        yl = synth.year_len(y)
+        ms = rng.choice([0, 86399000, rng.randint(0, 86399999)])
+        cfg = {"seed": rng.randrange(10**9), "level": "1.5", "images": [("HH", None)], "n_lines": 1, "n_pixels": 1, "n_att": 2, "n_chan": 1,
+               "same_instant": (y, yl, ms), "mapproj": None,
+               "leader_overrides": {"dataset_summary.scene_center_time": f"{y + 1:04d}0101000512345"}}
+        prod = products.build(cfg)
+        path, clean = products.place(prod, "memory")
+        evals += 1
+        distinct.add(("new-year", y, ms))
+        want = np.datetime64(synth.instant_ns(y, yl, ms * 10**6), "ns")
+        try:
+            t = _open(path)
+            for sec in ("attitude", "rates"):
+                v = np.datetime64(t[f"metadata/attitude/{sec}/time"].values[0], "ns")
+                if v != want:
+                    viol.append({"case": {"cfg": cfg}, "what": f"attitude ({sec}) time reads {v} but the instant written is {want} (first orbit point in {y}, scene centre in {y + 1})",
+                                 "key": "attitude-time" if v == want + np.timedelta64(1, "D") else None})
+            sc = t["metadata/dataset_summary"].attrs["scene_center_time"]
+            if sc != f"{y + 1:04d}-01-01T00:05:12.345000":
+                viol.append({"case": {"cfg": cfg}, "what": f"scene centre time reads {sc}"})
+        except Exception as e:  # noqa: BLE001
+            viol.append({"case": {"cfg": cfg}, "what": f"{type(e).__name__}: {e}"[:300], "key": common.failure_site(e)})
+        finally:
+            clean()
     return {"name": "oracle:C17 one calendar convention", "evaluations": evals, "distinct": len(distinct), "violations": viol, "samples": samples}
 
 
